@@ -107,16 +107,39 @@ impl<T> ShellStream<T> {
         ensures stream_chan(r) == mpsc::chan_r(output_receiver),
     { unimplemented!() }
 }
+impl<T> ShellRequest<T> {
+    #[verifier::external_body]
+    pub fn new<F: FnOnce()>(send_request: F, output_receiver: mpsc::UnboundedReceiver<T>) -> (r: ShellRequest<T>)
+        ensures request_chan(r) == mpsc::chan_r(output_receiver),
+    { unimplemented!() }
+}
+impl<Op: Operation> Request<Op> {
+    #[verifier::external_body]
+    pub fn resolves_never(operation: Op) -> (r: Request<Op>)
+        ensures arity(r) == 0,
+    { unimplemented!() }
+}
 
 //@extract id=CommandContext file=crux_core/src/command/context.rs item="struct CommandContext"
 //@rule X2.vis * s/pub\(crate\)/pub/
 //@end
 
 impl<Effect, Event> CommandContext<Effect, Event> {
-//@extract id=CommandContext::stream_from_shell file=crux_core/src/command/context.rs within="impl<Effect, Event> CommandContext<Effect, Event>" item="fn stream_from_shell" props=C02
+//@extract id=CommandContext::notify_shell file=crux_core/src/command/context.rs within="impl<Effect, Event> CommandContext<Effect, Event>" item="fn notify_shell" props=C02
+//@expect pub fn notify_shell<Op>(&self, operation: Op) where Op: Operation, Effect: From<Request<Op>>,
+//@end
+
+//@extract id=CommandContext::request_from_shell file=crux_core/src/command/context.rs within="impl<Effect, Event> CommandContext<Effect, Event>" item="fn request_from_shell" props=C02+C06
+//@expect pub fn request_from_shell<Op>(&self, operation: Op) -> ShellRequest<Op::Output> where Op: Operation, Effect: From<Request<Op>> + Send + 'static,
+//@sig pub fn request_from_shell<Op>(&self, operation: Op) -> (r: ShellRequest<Op::Output>) where Op: Operation, Effect: From<Request<Op>>,
+//@rule X1.closure-contract 1 s#move \|output\| \{#move |output: Op::Output| -> (res: ())\n            ensures true, // [C02+C06/one-shot-continuation/offers-the-value-to-its-own-channel-and-never-panics-on-a-closed-one]\n        {#
+//@rule X15.box-erasure * s#Box::new\(send_request\)#send_request#
+//@end
+
+//@extract id=CommandContext::stream_from_shell file=crux_core/src/command/context.rs within="impl<Effect, Event> CommandContext<Effect, Event>" item="fn stream_from_shell" props=C02+C06
 //@expect pub fn stream_from_shell<Op>(&self, operation: Op) -> ShellStream<Op::Output> where Op: Operation, Effect: From<Request<Op>> + Send + 'static,
 //@sig pub fn stream_from_shell<Op>(&self, operation: Op) -> (r: ShellStream<Op::Output>) where Op: Operation, Effect: From<Request<Op>>,
-//@rule X1.closure-contract 1 s/move \|output\| \{\s*output_sender\.unbounded_send\(output\)/move |output: Op::Output| -> (res: Result<(), ()>) ensures res is Ok <==> mpsc::accepts(output_sender, output) \/\/ [C02\/stream-continuation\/accepted-iff-the-requests-own-channel-accepts-rejected-iff-its-consumer-has-ended]\n        {\n            output_sender.unbounded_send(output)/
+//@rule X1.closure-contract 1 s#move \|output\| \{#move |output: Op::Output| -> (res: Result<(), ()>)\n            ensures res is Ok <==> mpsc::accepts(output_sender, output), // [C02+C06/stream-continuation/accepted-iff-the-requests-own-channel-accepts-so-rejected-iff-its-consumer-has-ended]\n        {#
 //@rule X8.closure-wildcard * s/\|_\|/|_e|/
 //@end
 }
